@@ -25,13 +25,10 @@ fixed("C29","7a7f54a","name function wrong-name | after {SetFnName.0} @named-all
 # ---- open findings ------------------------------------------------------------------------------
 for opk,ex in [("AddImportFunc","[AddImportFunc]"),("DeleteFunc","[DeleteFunc(spare)]"),("LocalToImport","[LocalToImport(1)]"),("ImportToLocal","[ImportToLocal(0)]"),
                ("AddImportedGlobal","[AddImportedGlobal]"),("DeleteGlobal","[DeleteGlobal(spare)]"),("AddImportMem","[AddImportMem]"),("DeleteMem","[DeleteMem(spare)]")]:
-    known("C05",f"reencode * | after {{*{opk}*}} @*",
-          f"second encode() after a renumbering edit ({opk}) re-applies the old->new ID mapping to code, start, initialisers and data that the first encode already rewrote in place: different bytes, or a 'Deleted ...' panic",
-          {"base":"fn-min / gl-min / mem-min","history":ex,"then":"encode(); encode()"})
-known("C29","name local * | *","local-name (and label-name) maps are replayed verbatim with the function indices they had in the input: after any edit that renumbers functions the names sit on another function",
-      {"base":"named-all","history":"[AddImportFunc]","observe":"local names of $loc_a appear on the function one index lower"})
-known("C29","name global * | *","the global-name map is replayed verbatim with the indices of the input: after adding an imported global or deleting a global the names sit on other globals",
-      {"base":"named-all","history":"[AddImportedGlobal]"})
+    fixed("C05","7322b48",f"reencode * | after {{*{opk}*}} @*",
+          f"second encode() after a renumbering edit ({opk}; witness {ex} on fn-min / gl-min / mem-min, then encode(); encode()) re-applied the old->new ID mapping to code, start, initialisers and data that the first encode had rewritten in place: different bytes, or a 'Deleted ...' panic")
+fixed("C29","a85aa2c","name local * | *","local-name (and label-name) maps were replayed verbatim with the function indices they had in the input: after any edit that renumbers functions the names sat on another function (witness [AddImportFunc] on named-all: local names of $loc_a on the function one index lower)")
+fixed("C29","a85aa2c","name global * | *","the global-name map was replayed verbatim with the indices of the input: after adding an imported global or deleting a global the names sat on other globals (witness [AddImportedGlobal] on named-all)")
 
 fixed("C25","92adedc","panic no-local-functions","ModuleIterator::new panicked on a module without local functions (witness: (module))")
 fixed("C25","92adedc","panic all-skipped","ModuleIterator panicked when every local function is skipped (witness: (module (func)) with skip [0])")
